@@ -32,6 +32,18 @@ def args_of(op):
 KNOWN_CLASSES = {}
 
 PROPS = {
+    "C13": {
+        "lean_modules": ["TableauVerif.Props.C13"],
+        "oracles": ["c13.patch"],
+        "streams": [
+            ("corr.xproto.patch", 6000, 300000),
+        ],
+        "assumptions": [
+            "modelled: xproto.PatchMessage/patchMessage/patchList/patchMap over message trees (populated fields only); unknown fields not modelled",
+            "aliasing / src-unchanged is a heap property a pure model cannot express: checked at run time by the harness (proto.Equal of src before/after) and reported in the observation",
+            "load.loadWithPatch file discovery is not modelled yet (partial)",
+        ],
+    },
     "C03": {
         "lean_modules": ["TableauVerif.Props.C03"],
         "oracles": ["c03.parse"],
